@@ -11,6 +11,7 @@ import (
 	"time"
 
 	zz "github.com/cloudwego/hertz/internal/zzverif"
+	"github.com/cloudwego/hertz/pkg/common/config"
 	"github.com/cloudwego/hertz/pkg/network"
 	"github.com/cloudwego/hertz/pkg/network/standard"
 	"github.com/cloudwego/hertz/pkg/protocol"
@@ -52,6 +53,7 @@ type zzDialer struct {
 	script func() (outcome int, marker byte) // outcome of the exchange in progress
 	dials  int
 	next   []byte // when script returns outcome -1: the bytes the new connection's peer sends
+	onDial func(nc *zz.NetConn)
 }
 
 var zzErrDial = errors.New("zz: dial failed")
@@ -70,6 +72,9 @@ func (d *zzDialer) DialConnection(n, address string, timeout time.Duration, tlsC
 	}
 	if outcome == zzWriteError {
 		nc.WriteErrAt = nc.Writes
+	}
+	if d.onDial != nil {
+		d.onDial(nc)
 	}
 	d.conns = append(d.conns, nc)
 	return standard.ZZNewConn(nc), nil
@@ -404,5 +409,62 @@ func ZZ_C10_H3() {
 		}
 	}
 	zz.Assert("no-live-waiter", !liveWaiter)
+	zz.Assert("pending-gauge-zero", c.PendingRequests() == 0)
+}
+
+// ZZ_C10_H4: the per-request timeout budget. Call 1 has no budget, a budget that is already used
+// up (1 ns) or one of 1 s, and the peer's connection takes its time on writes or not (zz.SlowFor:
+// 1.3 s natively, +1.3 s on the modelled clock), so the budget can run out before the request is
+// written or between writing it and reading the answer. Whatever call 1 returns, a connection
+// whose exchange did not complete is not reused: call 2 (no budget) gets the answer to its own
+// request and the pool invariant holds.
+func ZZ_C10_H4() {
+	budget := []time.Duration{0, 1, time.Second}[zz.Choose("budget", 3)]
+	slowWrite := zz.Choose("slowWrite", 2) == 1
+	d := &zzDialer{}
+	marker := byte('0')
+	d.script = func() (int, byte) { return -1, 0 }
+	c := NewHostClient(&ClientOptions{Dialer: d, MaxConns: 2}).(*HostClient)
+	c.Addr = "h:80"
+	var req1, req2 protocol.Request
+	var resp1, resp2 protocol.Response
+	req1.SetRequestURI("http://h/0")
+	req2.SetRequestURI("http://h/1")
+	if budget > 0 {
+		req1.SetOptions(config.WithRequestTimeout(budget))
+	}
+	d.next = zzPeerBytes(zzOK, marker)
+	d.onDial = func(nc *zz.NetConn) {
+		if slowWrite {
+			nc.OnWrite = func() { zz.SlowFor(1300) }
+		}
+	}
+	err1 := c.Do(&zzCtx{}, &req1, &resp1)
+	zz.Cover("first-call-timed-out", err1 != nil)
+	zz.Cover("first-call-ok", err1 == nil)
+	if err1 == nil {
+		b := resp1.Body()
+		zz.Assert("first-response-is-its-own", len(b) == 2 && b[1] == '0')
+	}
+	zz.Assert("pool-invariant-after-first-call", zzPoolInvariant(c, d, 2))
+	// second call: the peer answers request 1 on whichever connection carries it
+	slowWrite = false
+	marker = '1'
+	reply := zzPeerBytes(zzOK, marker)
+	d.next = reply
+	for _, nc := range d.conns {
+		nc.OnWrite = nil
+		if nc.Closed == 0 {
+			nc.In = append(nc.In, reply...)
+		}
+	}
+	err2 := c.Do(&zzCtx{}, &req2, &resp2)
+	zz.Cover("reached-assert", true)
+	zz.Assert("second-call-succeeds", err2 == nil)
+	if err2 == nil {
+		b := resp2.Body()
+		zz.Assert("second-response-belongs-to-the-second-request", len(b) == 2 && b[1] == '1')
+	}
+	zz.Assert("pool-invariant-at-the-end", zzPoolInvariant(c, d, 2))
 	zz.Assert("pending-gauge-zero", c.PendingRequests() == 0)
 }
